@@ -38,7 +38,7 @@ type tsigSpec struct {
 }
 
 type faultSpec struct {
-	Kind string // "" id rcode nosoa cut alter strip wrongkey chain drop dup swap
+	Kind string // "" id rcode nosoa cut alter strip wrongkey chain stale drop dup swap
 	Env  int    // envelope index (taken modulo the number of envelopes)
 	K    int    // cut: octet (mod stream length); alter: offset (mod covered region)
 	Val  int    // id: xor mask; rcode: code; alter: xor mask; nosoa/chain/wrongkey: variant
@@ -412,6 +412,15 @@ func buildPlan(c xferCase, reqMAC []byte, now uint64) plan {
 				o.prior = nil
 			case 4: // chained to the envelope before the previous one
 				o.prior = macs[i-2]
+			}
+			p.firstBad, p.strong, p.prefix = i, true, true
+		}
+		if hit && f.Kind == "stale" {
+			// signed outside the fudge window (RFC 8945 §5.2.3): correct MAC, unacceptable time
+			if f.Val%2 == 0 {
+				o.now = now - 1000
+			} else {
+				o.now = now + 1000
 			}
 			p.firstBad, p.strong, p.prefix = i, true, true
 		}
@@ -1178,7 +1187,7 @@ func genSizes(t *rapid.T, n int) []int {
 }
 
 var strongPlain = []string{"id", "rcode", "nosoa", "cut", "cut", "drop"}
-var strongTsig = []string{"id", "rcode", "nosoa", "cut", "alter", "alter", "strip", "wrongkey", "chain", "chain", "drop", "dup", "swap"}
+var strongTsig = []string{"id", "rcode", "nosoa", "cut", "alter", "alter", "strip", "wrongkey", "chain", "chain", "drop", "dup", "swap", "stale"}
 var weakPlain = []string{"alter", "dup", "swap"}
 
 func genCase(t *rapid.T) xferCase {
